@@ -25,6 +25,7 @@ func init() {
 			NotCovered: "the induction over interleavings itself is a paper argument, not mechanised; the uploader's own behaviour.",
 			Rules: map[string]string{"C16-R1": "records only under mu", "C16-R2": "Refresh: upload what was reset, remerge iff failed",
 				"C16-R3": "remerge: insert or add counts", "C16-R4": "Record: new=1, existing+1, metadata from arguments",
+				"C16-R6": "resetRecords hands out the old map and installs a fresh one on every path; recordToProtobuf copies count, device, country, ASN, protocol and time unchanged",
 				"C16-R5": "uploader: nil result only if every record was sent and the stream closed cleanly (error kinds nil / io.EOF / other tracked through wrapping, Join and errors.Is)"},
 		}})
 }
@@ -180,6 +181,57 @@ func runC16(c *an.Ctx) {
 
 	// ---- R5: the gRPC uploader reports success only when everything was delivered
 	c16Upload(c)
+	// ---- R6: the batch handed to the uploader is detached from the live map; the wire record carries the count unchanged
+	c.Floor("C16-R6", 2)
+	decide(c, "C16-R6", "billstat.(*RuntimeRecorder).resetRecords", an.DecideCfg{
+		Dom: an.Domain{"len(p0.records)": an.Ints(0, 3)},
+		OnCall: func(it *an.Interp, name string, args []an.AV) (an.AV, bool) {
+			if strings.Contains(name, ".metrics.") {
+				return an.Nil(), true
+			}
+			return an.AV{}, false
+		},
+		Expect: func(f an.Features, o an.AOutcome) string {
+			if o.RetString() != "p0.records" {
+				return "the map that was live when the lock was taken; got " + o.RetString()
+			}
+			var st string
+			for _, e := range o.Effects {
+				if e.Kind == "store" && e.Name == "p0.records" {
+					st = e.Args[0]
+				}
+			}
+			if !strings.HasPrefix(st, "nonnil:make#") {
+				return "a fresh, empty map installed as the live map on every path (also when the batch is empty: queries recorded during the upload must not land in the map the uploader and the re-merge work on); got " + st
+			}
+			if o.CallIndex("(*sync.Mutex).Lock") != 0 {
+				return "the swap made under the recorder's mutex"
+			}
+			return ""
+		},
+	})
+	decide(c, "C16-R6", "backendpb.recordToProtobuf", an.DecideCfg{
+		Dom: an.Domain{},
+		OnCall: func(it *an.Interp, name string, args []an.AV) (an.AV, bool) {
+			if strings.HasSuffix(name, "timestamppb.New") {
+				return an.NonNil("ts(" + args[0].String() + ")"), true
+			}
+			return an.AV{}, false
+		},
+		Expect: func(f an.Features, o an.AOutcome) string {
+			if len(o.Ret) != 1 {
+				return "a record"
+			}
+			k := strings.TrimPrefix(o.Ret[0].String(), "&")
+			for fld, want := range map[string]string{"Queries": "p0.Queries", "DeviceId": "p1", "ClientCountry": "p0.Country", "Proto": "p0.Proto", "Asn": "p0.ASN",
+				"LastActivityTime": "nonnil:ts(p0.Time)"} {
+				if got := o.Mem[k+"."+fld].String(); got != want {
+					return fmt.Sprintf("%s = %s, unchanged apart from the type conversion (a clamped or recomputed count breaks delivered + held = recorded); got %s", fld, want, got)
+				}
+			}
+			return ""
+		},
+	})
 }
 
 // errKinds are the abstract error values of the uploader table: nil, io.EOF
